@@ -27,7 +27,7 @@ type Shadow struct {
 	tracked bool
 	inCall  bool
 	Late    []string // primitives invoked while no API call was running (a finalizer acting on the secret's pages)
-	Tail    int // > 0: only the last Tail bytes of a region are secret data (memguard pads the inner region with a random canary)
+	Tail    int      // > 0: only the last Tail bytes of a region are secret data (memguard pads the inner region with a random canary)
 }
 
 var errInjected = errors.New("injected primitive failure")
@@ -260,4 +260,47 @@ func (s *Shadow) Untrack() { s.tracked = false; s.prot = "" }
 
 func unsafeSlice(addr uintptr, n int) []byte {
 	return unsafe.Slice((*byte)(unsafe.Pointer(addr)), n)
+}
+
+// Prot returns only the protection of the secret's first page, from /proc/self/maps (much cheaper than smaps).
+func (s *Shadow) Prot() string {
+	if !s.tracked {
+		return "NONE"
+	}
+	f, err := os.Open("/proc/self/maps")
+	if err != nil {
+		return ""
+	}
+	defer f.Close()
+	page := uintptr(os.Getpagesize())
+	start := s.Addr &^ (page - 1)
+	sc := bufio.NewScanner(f)
+	sc.Buffer(scanBuf, len(scanBuf))
+	for sc.Scan() {
+		line := sc.Bytes()
+		i := 0
+		for i < len(line) && line[i] != '-' {
+			i++
+		}
+		j := i + 1
+		for j < len(line) && line[j] != ' ' {
+			j++
+		}
+		if j+3 >= len(line) {
+			continue
+		}
+		lo, e1 := strconv.ParseUint(string(line[:i]), 16, 64)
+		hi, e2 := strconv.ParseUint(string(line[i+1:j]), 16, 64)
+		if e1 != nil || e2 != nil || !(uintptr(lo) <= start && start < uintptr(hi)) {
+			continue
+		}
+		switch {
+		case line[j+1] == 'r' && line[j+2] == 'w':
+			return "RW"
+		case line[j+1] == 'r':
+			return "RO"
+		}
+		return "NONE"
+	}
+	return "NONE"
 }
